@@ -392,6 +392,7 @@ let run_history (lines : string list) =
         unit_line (do_step (XAddFile (n_of_int u, sfx, o)))
     | [ "rmschema" ] -> unit_line (do_step XRmSchema)
     | [ "rmentry"; u ] -> unit_line (do_step (XRmEntry (n_of_int (int_of_string u))))
+    | [ "rmfentry"; u; f ] -> unit_line (do_step (XRmFieldEntry (n_of_int (int_of_string u), nat_of_int (int_of_string f))))
     | [ "stray"; "nodot" ] -> unit_line (do_step (XStray (bytes_of_string "README")))
     | [ "stray"; "dot" ] -> unit_line (do_step (XStray (bytes_of_string "notes.txt")))
     | [ "stray"; "subdir" ] -> unit_line (do_step (XStray (bytes_of_string "sub.d")))
